@@ -40,8 +40,9 @@ theorem subtract_bounds (fuel : Nat) (s s' : List Rect) (r : Rect)
     (h : RectSet.subtract fuel s r = some s') (hr : r.Nonempty) (hs : ∀ x ∈ s, x.Nonempty) :
     (∀ x ∈ s', x.Nonempty) ∧
     (∀ l c, Covered s' l c → Covered s l c) ∧
-    (∀ l c, Covered s l c → ¬ r.Mem l c → Covered s' l c) :=
-  subtractFrom_bounds fuel s r 0 s' h hr hs
+    (∀ l c, Covered s l c → ¬ r.Mem l c → Covered s' l c) := by
+  rw [subtract_of_nonempty fuel s r hr] at h
+  exact subtractFrom_bounds fuel s r 0 s' h hr hs
 
 theorem translate_spec (s : List Rect) (d k : Int) (hs : ∀ x ∈ s, x.Nonempty) :
     (∀ x ∈ RectSet.translate s d k, x.Nonempty) ∧
@@ -127,6 +128,7 @@ theorem run_nothing_lost (fuel : Nat) : ∀ (ops : List Op) (s s' : List Rect) (
     | sub r =>
       simp only [runOps, Option.bind_eq_some_iff] at h
       obtain ⟨s1, h1, h2⟩ := h
+      rw [subtract_of_nonempty fuel s r hvo] at h1
       obtain ⟨a1, _, a3⟩ := subtractFrom_bounds fuel s r 0 s1 h1 hvo hs
       refine ih s1 s' _ h2 hvr a1 ?_
       intro l c hh
@@ -255,6 +257,7 @@ theorem subtract_needs_noStack :
     every member that meets the hole, although re-adding the remains rearranges the array under it. -/
 theorem subtract_removes (fuel : Nat) (s s' : List Rect) (r : Rect) (hs : Inv s) (hr : r.Nonempty)
     (h : RectSet.subtract fuel s r = some s') : Inv s' ∧ ∀ l c, Covered s' l c → ¬ r.Mem l c := by
+  rw [subtract_of_nonempty fuel s r hr] at h
   obtain ⟨h1, h2⟩ := subtractFrom_clean fuel s r 0 s' h ((inv_iff s).1 hs) hr
     (by intro j m hj; omega)
   refine ⟨(inv_iff s').2 h1, ?_⟩
@@ -378,7 +381,9 @@ theorem run_terminates : ∀ (ops : List Op) (s : List Rect), Inv s → Valid op
       obtain ⟨N2, hN2⟩ := ih s1 (subtract_removes N1 s s1 r hs hvo h1).1 hvr
       refine ⟨max N1 N2, fun fuel hf => ?_⟩
       obtain ⟨s', hs'⟩ := hN2 fuel (by omega)
-      have h1' : RectSet.subtract fuel s r = some s1 := subtractFrom_mono h1 (by omega)
+      have h1' : RectSet.subtract fuel s r = some s1 := by
+        rw [subtract_of_nonempty _ _ _ hvo] at h1 ⊢
+        exact subtractFrom_mono h1 (by omega)
       exact ⟨s', by simp only [runOps, h1', Option.bind_some]; exact hs'⟩
     | xl d k =>
       obtain ⟨N, hN⟩ := ih _ (translate_inv s d k hs) hvr
